@@ -217,8 +217,17 @@ CHAN_ASSUME = [
 ]
 
 
+# thorough volumes are the listed numbers times VERIF_THOROUGH_SCALE (default 0.3: the full numbers take hours
+# of TLC time per channel check); tuples (scenario seeds, capacities) are never scaled
+THOROUGH_SCALE = float(os.environ.get("VERIF_THOROUGH_SCALE", "0.3"))
+
+
 def n(tier, q, t):
-    return q if tier == "quick" else t
+    if tier == "quick":
+        return q
+    if isinstance(t, int) and isinstance(q, int) and t > 50:
+        return max(q, int(t * THOROUGH_SCALE))
+    return t
 
 
 def C01(rep):
